@@ -18,7 +18,7 @@ pub struct Text { pub id: Ghost<int> }
 MODEL = r'''
 pub enum ProcessError { SpawnFailed(IoError), Timeout, OutputLimitExceeded(ProcessStream), InvalidUtf8(ProcessStream) }
 pub struct ProcessSpec { pub program: S, pub args: Vec<S>, pub cwd: Option<S>, pub env: Vec<EnvPair>, pub stdin: StdinM, pub stdout: OutputPolicy, pub stderr: OutputPolicy, pub timeout_ms: u32 }
-pub struct StdinM { pub g: Ghost<int> }
+pub type StdinM = StdinPolicy;
 pub struct ProcessCaps { pub max_capture_bytes_per_stream: u32, pub wait_poll_ms: u32 }
 pub struct ProcessResult { pub success: bool, pub exit_code: Option<i32>, pub stdout: Option<Text>, pub stderr: Option<Text> }
 
@@ -26,6 +26,21 @@ pub struct ProcessResult { pub success: bool, pub exit_code: Option<i32>, pub st
 pub struct Command {
     pub program: Ghost<int>, pub args: Ghost<Seq<int>>, pub cwd: Ghost<Option<int>>, pub env: Ghost<Seq<(int, int)>>,
     pub stdio_done: Ghost<bool>,
+    pub stdin: Ghost<Option<Stdio>>, pub stdout: Ghost<Option<Stdio>>, pub stderr: Ghost<Option<Stdio>>,
+}
+#[derive(PartialEq, Eq, Clone, Copy)]
+pub enum Stdio { Inherit, Null, Piped }
+impl Stdio {
+    pub fn inherit() -> (r: Stdio) ensures r == Stdio::Inherit { Stdio::Inherit }
+    pub fn null() -> (r: Stdio) ensures r == Stdio::Null { Stdio::Null }
+    pub fn piped() -> (r: Stdio) ensures r == Stdio::Piped { Stdio::Piped }
+}
+pub open spec fn stdio_of(p: OutputPolicy) -> Stdio { match p { OutputPolicy::Inherit => Stdio::Inherit, OutputPolicy::Null => Stdio::Null, OutputPolicy::Capture => Stdio::Piped } }
+pub struct CommandIo { pub stdin: Ghost<Option<Stdio>>, pub stdout: Ghost<Option<Stdio>>, pub stderr: Ghost<Option<Stdio>> }
+impl CommandIo {
+    #[verifier::external_body] pub fn stdin(&mut self, s: Stdio) ensures final(self).stdin@ == Some(s), final(self).stdout@ == old(self).stdout@, final(self).stderr@ == old(self).stderr@ { unimplemented!() }
+    #[verifier::external_body] pub fn stdout(&mut self, s: Stdio) ensures final(self).stdout@ == Some(s), final(self).stdin@ == old(self).stdin@, final(self).stderr@ == old(self).stderr@ { unimplemented!() }
+    #[verifier::external_body] pub fn stderr(&mut self, s: Stdio) ensures final(self).stderr@ == Some(s), final(self).stdin@ == old(self).stdin@, final(self).stdout@ == old(self).stdout@ { unimplemented!() }
 }
 pub open spec fn ids(v: Seq<S>) -> Seq<int> { v.map_values(|s: S| s.id@) }
 pub open spec fn env_ids(v: Seq<EnvPair>) -> Seq<(int, int)> { v.map_values(|p: EnvPair| (p.key.id@, p.value.id@)) }
@@ -82,7 +97,16 @@ UNIT = VUnit(
     items=[
         Enum("ProcessStream", source="src/process.rs", derive="#[derive(Clone, Copy)]", eq=True),
         Enum("OutputPolicy", source="src/process.rs", derive="#[derive(Clone, Copy)]", eq=True),
+        Enum("StdinPolicy", source="src/process.rs", derive="", rewrites=[Rw("R12", r"ArenaString<'a>", "S")]),
         Raw(MODEL),
+        # a captured stream is a pipe, a null one the null device, an inherited one the parent's; stdin is a pipe exactly when text is fed
+        Fn("output_stdio", sig="fn output_stdio(policy: OutputPolicy) -> (r: Stdio)", expect_sig=r"fn output_stdio\(policy: OutputPolicy\) -> Stdio",
+           ensures=["r == stdio_of(policy)"], vacuity="-", real_name="process_common::output_stdio"),
+        Fn("configure_stdio", label="configure_stdio_body",
+           sig="fn configure_stdio_body(command: &mut CommandIo, spec: &ProcessSpec)", expect_sig=r"fn configure_stdio\(command: &mut Command, spec: &ProcessSpec<'_>\)",
+           ensures=["final(command).stdout@ == Some(stdio_of(spec.stdout)) && final(command).stderr@ == Some(stdio_of(spec.stderr))",
+                    "final(command).stdin@ == Some(match spec.stdin { StdinPolicy::Inherit => Stdio::Inherit, StdinPolicy::Null => Stdio::Null, StdinPolicy::Text(_) => Stdio::Piped })"],
+           vacuity="-", real_name="process_common::configure_stdio"),
         # the child is spawned from a Command that carries exactly the spec (same program, same arguments in the same order and number,
         # the configured directory, every environment pair in order); a failed wait still joins every helper thread before the error is
         # returned; an exit status, zero or not, is result data; each capture handle is joined as the stream it was opened for
